@@ -16,7 +16,7 @@ def knobs():
 
 def knobs_models():
     # several models on one machine, some of them falsy (always, or during every other call of theirs)
-    return nested.NKnobs(max_models=3, p_falsy=0.6, max_states=9, max_history=12, p_suspend=0.2)
+    return nested.NKnobs(max_models=3, p_falsy=0.6, max_states=9, max_history=12, p_suspend=0.2, p_mops=0.6)
 
 
 def knobs_enum():
